@@ -53,6 +53,27 @@ Theorem C05_scopes_restored_call :
   call_function prof fuel n args e = XOk v e' -> depth_of e' = depth_of e.
 Proof. exact scopes_restored_call. Qed.
 
+(** ... and the names: whatever a body (function, branch, loop) binds in the scope [t0] opened for
+    it — parameters, variables first assigned inside — once that scope is popped every enclosing scope
+    binds exactly the names it bound before, in the same order; a statement can add names only at the
+    end of the innermost scope.  ([SK ss ss']: the head scope's names are a prefix of the new head's,
+    all other scopes have equal name lists.) *)
+Theorem C05_body_locals_do_not_leak :
+  forall prof fuel body xs e1 e2 t0 xs' e3,
+  scopes e2 = t0 :: scopes e1 -> prex xs ->
+  exec_block prof fuel body xs e2 = XOk xs' e3 ->
+  map keys (tl (scopes e3)) = map keys (scopes e1).
+Proof. exact body_locals_do_not_leak. Qed.
+
+Theorem C05_names_only_grow_stmt :
+  forall prof fuel s xs e xs' e', wf e -> prex xs ->
+  exec_stmt prof fuel s xs e = XOk xs' e' -> SK (scopes e) (scopes e').
+Proof. exact names_only_grow_stmt. Qed.
+
+Theorem C05_names_only_grow_expr :
+  forall prof fuel x e v e', wf e -> produce_expr prof fuel x e = XOk v e' -> SK (scopes e) (scopes e').
+Proof. exact names_only_grow_expr. Qed.
+
 (** updates of one variable never change another (callee writes to its parameters live in the
     callee's scope: with the previous theorem they are gone after the call) *)
 Theorem C05_store_other_variable_unchanged :
@@ -81,3 +102,4 @@ Theorem C05_unknown_name_error :
 Proof. exact unknown_name_error. Qed.
 
 Print Assumptions C05_scopes_restored_stmt.
+Print Assumptions C05_body_locals_do_not_leak.
